@@ -57,7 +57,7 @@ ANY_AGG_B = ("COVARIANCE", "CORRELATION", "L0", "L1", "L2", "LINF", "EQUAL")
 DOMAIN_ERRORS = (Exception,)
 C04_OPS = ("add_obs", "sort", "insert_chrono", "insert_at", "remove_list", "remove_obs", "remove_first",
            "remove_last", "extract", "span", "concat", "mod_n", "mod_pattern", "gt", "lt", "set_obs",
-           "fork_reverse", "fork_span", "edit_time", "slice", "pop_obs")
+           "fork_reverse", "fork_span", "edit_time", "slice", "pop_obs", "span_track")
 C17_OPS = ("abs_curv", "speed", "speed_direct", "ds")
 
 
@@ -488,6 +488,9 @@ class TrackWorld(World):
             k = max(k, 0)
             return self._instant(k)
         return {"t1": inst(), "t2": inst()}
+
+    def _g_span_track(self, r, m):
+        return {"other": r.randrange(self.cfg["sessions"])}
 
     def _g_concat(self, r, m):
         return {"other": r.randrange(self.cfg["sessions"])}
@@ -1677,6 +1680,20 @@ class TrackWorld(World):
             self.probe("feature_created_on_span_result")
             self._check_all("C04", "feature created on the track returned by extractSpanTime (source must be unchanged)")
 
+    def op_span_track(self, st):
+        """extractSpanTime(other_track): the span between the first and the last fix of another track."""
+        t, m = self._sess(st)
+        o = st["other"]
+        if o not in self.model or not self.model[o]["obs"] or not m["obs"]:
+            raise Skip()
+        t2, m2 = self.real[o], self.model[o]
+        a, b = tuple(m2["obs"][0]["t"]), tuple(m2["obs"][-1]["t"])
+        if a > b:
+            self.probe("span_with_reversed_bounds")
+        lo, hi = min(a, b), max(a, b)
+        exp = [x for x in m["obs"] if lo <= tuple(x["t"]) <= hi]
+        self._derive(st, "extractSpanTime(track of session %d)" % o, lambda: t.extractSpanTime(t2), exp, m)
+
     def op_concat(self, st):
         t, m = self._sess(st)
         o = st["other"]
@@ -1728,14 +1745,18 @@ class TrackWorld(World):
 
     def op_gt(self, st):
         t, m = self._sess(st)
-        k = st["n"] % (len(m["obs"]) + 2)
+        k = st["n"] % (len(m["obs"]) + 4)
+        if k > len(m["obs"]):
+            self.probe("trim_more_than_the_track_holds")
         self._derive(st, "t > %d" % k, lambda: t > k, m["obs"][k:], m)
 
     def op_lt(self, st):
         t, m = self._sess(st)
         n = len(m["obs"])
-        k = st["n"] % (n + 1)
-        self._derive(st, "t < %d" % k, lambda: t < k, m["obs"][: n - k], m)
+        k = st["n"] % (n + 4)
+        if k > n:
+            self.probe("trim_more_than_the_track_holds")
+        self._derive(st, "t < %d" % k, lambda: t < k, m["obs"][: max(0, n - k)], m)
 
     # ------------------------------------------------------------------ C17 ops
     def _def_abs_curv(self, m):
